@@ -26,7 +26,13 @@ Definition bs_degenerate (spot sigma maturity : R) : bool :=
    CFBlackScholes._call_put to scipy.stats.norm.cdf) *)
 Definition PhiR (x : R) : R := 1 / 2 + / sqrt (2 * PI) * RInt (fun t => exp (- (t * t) / 2)) 0 x.
 
-(* E[S_t^u] for the exponential model, composed exactly as ExponentialOfLevyModel.log_characteristic_function does
+(* ExponentialOfLevyModel.__init__ on the real reading (the exponent on the imaginary axis x = -i is kappa(1), its imaginary part 0):
+   `finite1` says whether kappa(1) is finite, i.e. whether 1 lies in the strip where E[exp(u L_1)] exists.  None = ValueError. *)
+Definition exp_omega_checked (finite1 : bool) (kappa : R -> R) : option R :=
+  let z := exp_exponent_at_minus_i kappa in
+  if exp_omega_raises finite1 z 0 then None else Some (exp_omega z).
+
+(* E[S_t^u] for a constructed exponential model, composed exactly as ExponentialOfLevyModel.log_characteristic_function does
    (read at x = -i u):  exp(u (log_spot + t (r - d + omega))) * exp(t kappa(u)),  omega = -kappa(1)  (generated pieces) *)
 Definition exp_mgf (kappa : R -> R) (r d : R) (log_spot t u : R) : R :=
-  exp_mgf_formula log_spot t (exp_drift r d (exp_omega kappa)) (levy_mgf t (kappa u)) u.
+  exp_mgf_formula log_spot t (exp_drift r d (exp_omega (exp_exponent_at_minus_i kappa))) (levy_mgf t (kappa u)) u.
